@@ -474,6 +474,36 @@ impl<S: Inspect> Inspect for ReorderKeys<S> {
     }
 }
 
+/// A store that files every item under the account it was saved for: whatever the credential says,
+/// the item keeps the `user.id` that came with save_credential as its user handle (an account
+/// vault; what a ForcedDiscoverable store does).
+#[derive(Clone)]
+pub struct KeepsUser<S> {
+    pub inner: S,
+}
+#[async_trait::async_trait]
+impl<S: CredentialStore<PasskeyItem = Passkey> + Send + Sync> CredentialStore for KeepsUser<S> {
+    type PasskeyItem = Passkey;
+    async fn find_credentials(&self, ids: Option<&[PublicKeyCredentialDescriptor]>, rp_id: &str) -> Result<Vec<Passkey>, StatusCode> {
+        self.inner.find_credentials(ids, rp_id).await
+    }
+    async fn save_credential(&mut self, mut cred: Passkey, user: PublicKeyCredentialUserEntity, rp: PublicKeyCredentialRpEntity, options: Options) -> Result<(), StatusCode> {
+        cred.user_handle = Some(user.id.clone());
+        self.inner.save_credential(cred, user, rp, options).await
+    }
+    async fn update_credential(&mut self, cred: Passkey) -> Result<(), StatusCode> {
+        self.inner.update_credential(cred).await
+    }
+    async fn get_info(&self) -> StoreInfo {
+        self.inner.get_info().await
+    }
+}
+impl<S: Inspect> Inspect for KeepsUser<S> {
+    fn recs(&self) -> Vec<Rec> {
+        self.inner.recs()
+    }
+}
+
 /// A store whose items spell their `rp_id` member differently from the RP ID they are looked up
 /// under (a vault that keeps a website URL, an upper-case or dotted host, nothing at all): the
 /// lookup is the store's business, and what a ceremony is bound to is the RP ID of the *request*.
@@ -989,6 +1019,38 @@ pub fn hex(b: &[u8]) -> String {
 // ------------------------------------------------------------------------------------------
 // WebAuthn-level request builders
 
+/// Request members that no property speaks of and that therefore must not matter: `timeout` and
+/// `hints`.  The "members pass" (main.rs) repeats an exploration with them set - 1: timeout 0 and
+/// hints [security-key, client-device]; 2: timeout u32::MAX and hints [hybrid]; 3: timeout 1 and an
+/// empty hints list.
+static AMBIENT: std::sync::atomic::AtomicU8 = std::sync::atomic::AtomicU8::new(0);
+pub fn set_ambient_members(k: u8) {
+    AMBIENT.store(k, std::sync::atomic::Ordering::SeqCst);
+}
+pub fn ambient_timeout() -> Option<u32> {
+    ambient_timeout_of(AMBIENT.load(std::sync::atomic::Ordering::SeqCst))
+}
+pub fn ambient_timeout_of(k: u8) -> Option<u32> {
+    match k {
+        1 => Some(0),
+        2 => Some(u32::MAX),
+        3 => Some(1),
+        _ => None,
+    }
+}
+pub fn ambient_hints() -> Option<Vec<webauthn::PublicKeyCredentialHints>> {
+    ambient_hints_of(AMBIENT.load(std::sync::atomic::Ordering::SeqCst))
+}
+pub fn ambient_hints_of(k: u8) -> Option<Vec<webauthn::PublicKeyCredentialHints>> {
+    use webauthn::PublicKeyCredentialHints as H;
+    match k {
+        1 => Some(vec![H::SecurityKey, H::ClientDevice]),
+        2 => Some(vec![H::Hybrid]),
+        3 => Some(vec![]),
+        _ => None,
+    }
+}
+
 pub struct Reg {
     pub rp_id: Option<String>,
     pub challenge: Vec<u8>,
@@ -1011,10 +1073,10 @@ pub fn creation_options(r: Reg) -> webauthn::CredentialCreationOptions {
             user: webauthn::PublicKeyCredentialUserEntity { id: r.user_id.into(), name: r.user_name.clone(), display_name: r.user_name },
             challenge: r.challenge.into(),
             pub_key_cred_params: r.params,
-            timeout: None,
+            timeout: ambient_timeout(),
             exclude_credentials: r.exclude.map(|l| l.iter().map(|i| descriptor(i)).collect()),
             authenticator_selection: r.selection,
-            hints: None,
+            hints: ambient_hints(),
             attestation: Default::default(),
             attestation_formats: None,
             extensions: r.extensions,
@@ -1037,11 +1099,11 @@ pub fn request_options(a: Auth) -> webauthn::CredentialRequestOptions {
     webauthn::CredentialRequestOptions {
         public_key: webauthn::PublicKeyCredentialRequestOptions {
             challenge: a.challenge.into(),
-            timeout: None,
+            timeout: ambient_timeout(),
             rp_id: a.rp_id,
             allow_credentials: a.allow.map(|l| l.iter().map(|i| descriptor(i)).collect()),
             user_verification: a.uv,
-            hints: None,
+            hints: ambient_hints(),
             attestation: Default::default(),
             attestation_formats: None,
             extensions: a.extensions,
